@@ -245,7 +245,7 @@ def long_strings(ctx, alphabet, count, lo=20, hi=300):
 FUZZ_KINDS = {
     0: lambda h, a, b: [f'prof|um|enforce|f|b|{h}|'], 1: lambda h, a, b: [f'prof|up|enforce|f|b|{h}|'],
     2: lambda h, a, b: [f'prof|op|enforce|f|b|{h}|'], 3: lambda h, a, b: [f'prof|nick|enforce|f|b|{h}|'],
-    4: lambda h, a, b: [f'prof|nick|compare|f|b|{h}|{h}'], 5: lambda h, a, b: [f'rules|um|width|{h}', f'rules|um|dir|{h}'],
+    4: lambda h, a, b: [f'prof|nick|compare|f|b|{h}|{h}'], 5: lambda h, a, b: [f'rules|um|width|{h}'], 12: lambda h, a, b: [f'rules|um|dir|{h}'],
     6: lambda h, a, b: [f'rules|um|case|{h}'], 7: lambda h, a, b: [f'rules|nick|addmap|{h}', f'rules|op|addmap|{h}'],
     8: lambda h, a, b: [f'allows.id|{h}'], 9: lambda h, a, b: [f'allows.ff|{h}'],
     10: lambda h, a, b: [f'rules|nick|norm|{h}', f'rules|op|norm|{h}'],
@@ -302,6 +302,8 @@ def fuzz_cases(ctx, kinds, seconds=None):
         if not data:
             continue
         k = data[0] % 12
+        if k == 5 and 12 in kinds and 5 not in kinds:
+            k = 12          # the directionality rule shares the fuzz operation of the width rule; checks that cannot tell the known bidi deviation ask for 5 only
         if k not in kinds:
             continue
         s = data[1:].decode('utf-8', errors='replace')
@@ -315,6 +317,8 @@ def fuzz_cases(ctx, kinds, seconds=None):
             cases += FUZZ_KINDS[k]('', hexs([ord(c) for c in a]), hexs([ord(c) for c in b_]))
         else:
             cases += FUZZ_KINDS[k](hexs(cps), '', '')
+            if k == 5 and 12 in kinds:
+                cases += FUZZ_KINDS[12](hexs(cps), '', '')
         if fn.startswith(art):
             ncrash += 1
     for f_ in glob.glob(os.path.join(work, 'fuzz-*.log')):
@@ -373,4 +377,68 @@ def structured_strings(ctx, count, kinds=None, maxseg=7):
             else:
                 s += [rng.choice(pool) for _ in range(rng.choice([1, 1, 2, 3, 4]))]
         out.append(s)
+    return out
+
+
+# ---- product of dimensions: TOTAL LENGTH x filler kind x head x tail.  Fixed-size buffers, block-wise scans and "long enough
+# to be worth it" fast paths change behaviour at a particular number of characters or bytes (2^k, 2^k +- 1), for a particular
+# encoded width of the filler, and only when a particular kind of character stands at the start or at the end.
+INTERESTING_LENGTHS = sorted(set(list(range(0, 10)) + [n + d for k in range(4, 11) for n in (1 << k,) for d in (-2, -1, 0, 1, 2)] + [100, 127, 128, 129, 130, 200, 300, 1000]))
+TAIL_POOL = sorted(set(SEGMENT_POOL['cased'] + SEGMENT_POOL['wide'] + SEGMENT_POOL['compat'] + SEGMENT_POOL['rtl'] + SEGMENT_POOL['ctx'] + SEGMENT_POOL['space'] +
+                       [0x2167, 0x216B, 0x2160, 0xFB01, 0xB5, 0x301, 0x323, 0x3099, 0x94D, 0x34F, 0x378, 0x2D, 0x31, 0x61, 0xE9, 0x65E5, 0x20000]))
+
+
+def product_strings(ctx, tails=None, heads=None, fillers=(0x61, 0xE9, 0x65E5), lengths=None, extra_long=True):
+    """strings of EXACT total length L: head + filler * (L - len(head) - len(tail)) + tail"""
+    tails = tails if tails is not None else TAIL_POOL
+    heads = heads if heads is not None else [[], [0x48], [0x5D0], [0x628, 0x200C], [0x20]]
+    lengths = lengths if lengths is not None else (INTERESTING_LENGTHS if ctx.tier != 'quick' else [n for n in INTERESTING_LENGTHS if n <= 10 or n % 8 in (0, 1, 7)])
+    out = []
+    tl = tails if ctx.tier != 'quick' else tails[::2]
+    for L in lengths:
+        for f in fillers:
+            for h in heads:
+                for t in tl:
+                    tt = t if isinstance(t, list) else [t]
+                    n = L - len(h) - len(tt)
+                    if n < 0:
+                        continue
+                    out.append(h + [f] * n + tt)
+    if extra_long:
+        # beyond 16-bit offsets: total byte lengths around 2^16 (one string per shape)
+        for L in (65536, 70000):
+            for tt in ([0x20, 0x20, 0x61, 0x62], [0xA0, 0x62]):
+                out.append([0x77, 0x30 + (L % 10)] + [0x61 if k % 7 else 0x20 for k in range(L)][2:] + tt)
+    return out
+
+
+def composition_pair_strings(ctx):
+    """every pair (a, b) -> c of the normalizer's composition table as ADJACENT characters (alone, inside letters, after a
+    base for mark+mark pairs): starter+starter pairs (two-part vowels), kana + voiced marks, Hangul, letters + marks"""
+    import verif
+    out = []
+    for l in open(os.path.join(verif.DUMP, 'norm.txt')):
+        f = l.rstrip('\n').split('\t')
+        if f[0] == 'comp':
+            a, b = int(f[1], 16), int(f[2], 16)
+            out.append([a, b])
+            out.append([0x78, a, b, 0x79])
+            out.append([a, b, b])
+    if ctx.tier == 'quick':
+        out = out[::2] + [[0x9C7, 0x9BE], [0x304B, 0x3099], [0x30CF, 0x309A], [0x1025, 0x102E], [0xBC6, 0xBBE]]
+    return out
+
+
+def hole_triples(ctx, fn='widthmap'):
+    """[h1, u, h2]: two characters the table maps around one it does not, u taken from the holes next to table entries"""
+    runs = parse_rle_text(sh([HARNESS, 'rle', fn]).stdout)[fn]
+    mapped = [s_ for s_, e, v in runs if v != 'none' and s_ < 0x110000]
+    holes = sorted({c for s_, e, v in runs if v != 'none' for c in (s_ - 1, e + 1) if 0 < c < 0x110000 and not (0xD800 <= c <= 0xDFFF)} -
+                   {c for s_, e, v in runs if v != 'none' for c in range(s_, e + 1)})
+    hs = mapped[::max(1, len(mapped) // (8 if ctx.tier == 'quick' else 30))]
+    out = []
+    for h1 in hs:
+        for u in holes:
+            for h2 in hs:
+                out.append([h1, u, h2])
     return out
